@@ -429,6 +429,46 @@ pub fn fixed_histories(n: usize) -> Vec<Vec<Op>> {
 }
 
 pub fn fixed_histories_ord(n: usize, ord: bool) -> Vec<Vec<Op>> {
+    fixed_histories_level(n, ord, 1)
+}
+
+/// level 0 (interpreters): every consuming operation once, spread over the three situations (fresh,
+/// cursors crossed, one step from each end) instead of in each of them
+pub fn fixed_histories_level(n: usize, ord: bool, level: u32) -> Vec<Vec<Op>> {
+    if level == 0 {
+        let mut out: Vec<Vec<Op>> = Vec::new();
+        for (k, c) in all_consuming(n, ord).into_iter().enumerate() {
+            match k % 3 {
+                0 => out.push(vec![c]),
+                1 => {
+                    let mut h = Vec::new();
+                    for i in 0..n {
+                        h.push(if i % 2 == 0 { Op::Next } else { Op::NextBack });
+                    }
+                    h.push(match c {
+                        Op::TryFoldStop(_) => Op::TryFoldStop(1),
+                        Op::FindNth(_) => Op::FindNth(0),
+                        Op::Position(_) => Op::Position(0),
+                        Op::RPosition(_) => Op::RPosition(0),
+                        Op::RevNth(_) => Op::RevNth(0),
+                        other => other,
+                    });
+                    out.push(h);
+                }
+                _ => out.push(if n >= 3 { vec![Op::Next, Op::NextBack, c] } else { vec![c] }),
+            }
+        }
+        let mut f = vec![Op::Next; n];
+        f.extend([Op::Next, Op::NextBack, Op::Len, Op::Nth(0), Op::SizeHint]);
+        out.push(f);
+        out.push(vec![Op::Nth(n), Op::Next, Op::NextBack, Op::Len]);
+        out.push(vec![Op::NthBack(usize::MAX), Op::NextBack, Op::Len]);
+        out.push(vec![Op::Nth(usize::MAX), Op::Next, Op::Len]);
+        if n >= 1 {
+            out.push(vec![Op::NthBack(n - 1), Op::Len, Op::NextBack]);
+        }
+        return out;
+    }
     let mut out: Vec<Vec<Op>> = all_consuming(n, ord).into_iter().map(|c| vec![c]).collect();
     // every consuming operation after the iterator was emptied from both ends (cursors crossed),
     // and after one step from each end
